@@ -25,17 +25,19 @@ ENGINE = 'E2 small-scope enumeration of tables x io configurations against a ref
 RULE = ('state = (table, format, dialect/encoder arguments, text encoding, target kind, write_header, reader '
         'header=) ; every state is one write with to* (plus 0-2 append*) and one read with the matching from*. '
         'Tables: every string of length <= L over a 12-character hostile alphabet (letter , " \' CR LF NUL space '
-        'non-ASCII TAB ; backslash) in every cell position of header-only, 1x1, 1x2 and 2x1 tables, all 2x2 grids '
+        'non-ASCII TAB ; backslash) and every string of length <= L over an 11-character line-boundary alphabet '
+        '(letter , " VT FF FS GS RS NEL U+2028 U+2029: where str.splitlines splits but csv / json-lines must not) '
+        'in every cell position of header-only, 1x1, 1x2 and 2x1 tables, all 2x2 grids '
         'of single hostile characters (as data and as header+row), typed cells (None int float bool str) in '
         'ragged / empty / over-long rows. A csv state is non-trivial when the written text holds a character '
-        'special under that dialect (its delimiter, its quotechar, CR, LF), NUL, a non-ASCII character, an empty '
+        'special under that dialect (its delimiter, its quotechar, CR, LF), NUL, VT/FF/FS/GS/RS, a non-ASCII character, an empty '
         'or non-text cell or a row whose length differs from the first row; pickle/json: a non-str cell or a '
         'ragged row; append: at least one appended row. Excluded: states on which csv.writer itself raises '
         'csv.Error (QUOTE_NONE without escapechar, lone empty field), numeric cells under QUOTE_NONNUMERIC (read '
         'back as float by the csv module), text not encodable in the chosen codec (ascii / locale default are '
-        'run on the ASCII subset), QUOTE_STRINGS/QUOTE_NOTNULL (reader side differs between 3.12 and 3.13), '
+        'run on the ASCII subset, latin-1 on code points < 256), QUOTE_STRINGS/QUOTE_NOTNULL (reader side differs between 3.12 and 3.13), '
         'tables without a header row, json tables with zero rows / non-text or duplicate field names')
-ASSUMPTIONS = ['cell text bounded to length 2 (quick) / 3 (thorough) over 12 characters; tables have <= 3 rows, <= 3 cells per row',
+ASSUMPTIONS = ['cell text bounded to length 2 (quick) / 3 (thorough) over 12 hostile + 11 line-boundary characters (two separate families, not mixed); tables have <= 3 rows, <= 3 cells per row',
                'five codecs stand for "every text encoding": utf-8, utf-16 (BOM-writing), latin-1, ascii, locale default (None)',
                'lineterminator, doublequote, escapechar, skipinitialspace left at their defaults (statement)',
                'compressed appends are compared after decompression with the stdlib (multi-member streams differ bytewise by design)',
@@ -54,11 +56,13 @@ EXT = {'path': '', 'gz': '.gz', 'bz2': '.bz2'}
 PROTOCOLS = [-1, 0, 2]
 
 CROSSING = {
-    'quick': 'strings(<=2) x 12 placements: [34 call forms on MemorySource/utf-8] + [2 default forms x 5 codecs x 4 target '
-             'kinds x 4 header-flag combinations]; 2x2 grids: 2 default forms on MemorySource/utf-8; typed/ragged tables: '
+    'quick': 'hostile strings(<=2) x 12 placements: [34 call forms on MemorySource/utf-8] + [2 default forms x 5 codecs x 4 target '
+             'kinds x 4 header-flag combinations]; line-boundary strings(<=2) x 12 placements: [34 forms on MemorySource/utf-8] + '
+             '[2 default forms x 5 codecs x 4 kinds]; 2x2 grids: 2 default forms on MemorySource/utf-8; typed/ragged tables: '
              '34 forms x 4 flag combinations on MemorySource/utf-8; append: 39 sequences x all write_header flags x 2 '
              'dialects x 7 codecs x 4 target kinds',
-    'thorough': 'strings(<=3) x 12 placements: [34 forms on MemorySource/utf-8] + [2 default forms x 5 codecs x 4 kinds]; '
+    'thorough': 'line-boundary strings(<=3) x 12 placements: [34 forms on MemorySource/utf-8]; line-boundary strings(<=2): as '
+                'hostile strings(<=2) below; hostile strings(<=3) x 12 placements: [34 forms on MemorySource/utf-8] + [2 default forms x 5 codecs x 4 kinds]; '
                 'strings(<=2) x 12 placements: [34 forms x 5 codecs x 4 kinds] + [2 default forms x 5 codecs x 4 kinds x 4 '
                 'flag combinations]; 2x2 grids: 34 forms on MemorySource/utf-8; typed/ragged tables: [34 forms x 4 kinds x 4 '
                 'flag combinations, utf-8] + [2 default forms x 4 other codecs x 4 kinds x 4 flag combinations]; append: 258 '
@@ -84,6 +88,18 @@ def alphabet(seed):
     letter = r['s1']
     nonascii = ['\xe9', '\xfc', '\xf1', '\xf8'][seed % 4]      # all of them exist in latin-1
     return [letter, ',', '"', "'", '\r', '\n', '\0', ' ', nonascii, '\t', ';', '\\']
+
+
+def boundary_alphabet(seed):
+    """Characters at which str.splitlines() / codecs StreamReader.readline() split but the csv module, the
+    json lines form and io.TextIOWrapper(newline='') do not (VT, FF, FS, GS, RS, NEL, LS, PS), together with
+    a letter, the default delimiter and the default quotechar.  csv.writer does not quote any of them."""
+    letter = spaces.reps(seed)['s1']
+    return [letter, ',', '"', '\x0b', '\x0c', '\x1c', '\x1d', '\x1e', '\x85', '\u2028', '\u2029']
+
+
+def boundary_strings(seed, maxlen):
+    return [''.join(t) for t in spaces.tuples_upto(boundary_alphabet(seed), maxlen)]
 
 
 def filler(seed):
@@ -134,7 +150,7 @@ def append_tables(seed):
     """Tables with 0, 1, 2 data rows whose rows are all distinguishable and carry hostile text."""
     a = alphabet(seed)
     na = a[8]
-    pool = [('r0', '1'), (na + ',"', 'l1\nl2'), ("q'" + '\t', ''), ('\r', None), (7, 2.5), ()]
+    pool = [('r0\x0b', '1\x0c\x1c'), (na + ',"\x85', 'l1\nl2'), ("q'" + '\t', ''), ('\r\x1d\x1e', None), (7, 2.5), ()]
     tabs = []
     for start in (0, 3):
         for n in (0, 1, 2):
@@ -144,7 +160,7 @@ def append_tables(seed):
 
 def pickle_cells(seed):
     r = spaces.reps(seed)
-    return [None, True, r['i1'], r['i1'] + 0.5, r['s1'], '\xe9\n', b'\x00\xff', (1, r['s1']), [1, [2]],
+    return [None, True, r['i1'], r['i1'] + 0.5, r['s1'], '\xe9\n', '\x0b\x1c\x85\u2028', b'\x00\xff', (1, r['s1']), [1, [2]],
             {'k': (1,)}, Decimal('1.5'), r['d1'], 1.0]
 
 
@@ -203,7 +219,7 @@ def json_tables(seed, maxlen):
     for n1, n2, n3 in itertools.permutations(N[:4], 3):
         out.append(((n1, n2, n3), (1, 2, 3), (4,)))
     # hostile text as cell and as field name
-    for s in strings(seed, maxlen):
+    for s in strings(seed, maxlen) + boundary_strings(seed, 2)[1:]:
         out.append(((f,), (s,)))
         if s != f:
             out.append(((s,), (f,)))
@@ -482,6 +498,7 @@ def setup(tier, seed):
     _G.update({
         'tier': tier, 'seed': seed, 'L': L, 'f': f,
         'S': S, 'S2': strings(seed, 2), 'A': alphabet(seed),
+        'LB': boundary_strings(seed, L), 'LB2': boundary_strings(seed, 2),
         'typed': typed_tables(seed), 'app': append_tables(seed),
         'pickle': pickle_tables(seed), 'json': json_tables(seed, 2 if tier == 'quick' else 3),
     })
@@ -489,6 +506,7 @@ def setup(tier, seed):
 
 def bounds(tier, seed):
     return {'max_cell_text_length': _G['L'], 'alphabet': 12, 'strings': len(_G['S']),
+            'line_boundary_alphabet': 11, 'line_boundary_strings': len(_G['LB']),
             'placements_per_string': 12, 'grid_tables': 2 * 12 ** 4, 'typed_tables': len(_G['typed']),
             'pickle_tables': len(_G['pickle']), 'json_tables': len(_G['json']),
             'append_base_tables': len(_G['app']),
@@ -526,12 +544,16 @@ def items(tier, seed):
     if tier == 'quick':
         out += [('A', 'dialects', lo, hi) for lo, hi in _slices(nS, 8)]
         out += [('A', 'env', lo, hi) for lo, hi in _slices(nS, 4)]
+        out += [('L', 'dialects', lo, hi) for lo, hi in _slices(len(_G['LB']), 8)]
+        out += [('L', 'envlite', lo, hi) for lo, hi in _slices(len(_G['LB']), 8)]
         out += [('B', v, i, 'default') for v in ('data', 'hdr') for i in range(12)]
         out += [('C', 'mem', lo, hi) for lo, hi in _slices(len(_G['typed']), 120)]
     else:
         out += [('A', 'dialects', lo, hi) for lo, hi in _slices(nS, 24)]
         out += [('A', 'envlite', lo, hi) for lo, hi in _slices(nS, 16)]
         out += [('A', 'full', lo, hi) for lo, hi in _slices(nS2, 2)]
+        out += [('L', 'dialects', lo, hi) for lo, hi in _slices(len(_G['LB']), 24)]
+        out += [('L', 'full', lo, hi) for lo, hi in _slices(len(_G['LB2']), 2)]
         out += [('B', v, i, 'all') for v in ('data', 'hdr') for i in range(12)]
         out += [('C', 'all', lo, hi) for lo, hi in _slices(len(_G['typed']), 20)]
     out += [('D', fmt, kind, i) for fmt in ('csv', 'tsv', 'pickle') for kind in KINDS
@@ -545,7 +567,7 @@ def items(tier, seed):
 
 def cost(item):
     p = item[0]
-    if p == 'A':
+    if p in ('A', 'L'):
         return {'dialects': 3, 'env': 4, 'envlite': 6, 'full': 9}[item[1]]
     if p == 'B':
         return 8 if item[3] == 'all' else 2
@@ -568,6 +590,10 @@ def _cfgs_A(name):
     raise ValueError(name)
 
 
+_CONTROL = set('\0\r\n\x0b\x0c\x1c\x1d\x1e')
+_MAXORD = {'ascii': 127, None: 127, 'latin-1': 255}      # codecs that cannot encode everything
+
+
 def _table_facts(table):
     chars = set()
     odd = False
@@ -585,17 +611,17 @@ def _table_facts(table):
                 odd = True
                 if ref.is_numeric_cell(c):
                     numeric = True
-    ascii_only = all(ord(ch) < 128 for ch in chars)
-    if not ascii_only or '\0' in chars or '\r' in chars or '\n' in chars:
+    maxord = max([ord(ch) for ch in chars] or [0])
+    if maxord > 127 or chars & _CONTROL:
         odd = True
-    return chars, odd, numeric, ascii_only
+    return chars, odd, numeric, maxord
 
 
 def _run_csv(acc, table, cfgs, part):
-    chars, odd, numeric, ascii_only = _table_facts(table)
+    chars, odd, numeric, maxord = _table_facts(table)
     rows_all = list(table)
     for fn, d, kind, enc, wh, hdr in cfgs:
-        if not ascii_only and (enc is None or enc == 'ascii'):
+        if maxord > _MAXORD.get(enc, 0x10ffff):
             acc.counters['excluded:not encodable'] += 1
             continue
         if numeric and d is not None and d[2] == QNN:
@@ -627,14 +653,17 @@ def _run_csv(acc, table, cfgs, part):
 def run_item(item, acc):
     p = item[0]
     f = _G['f']
-    if p == 'A':
+    if p in ('A', 'L'):
         _, name, lo, hi = item
         cfgs = _cfgs_A(name)
-        S = _G['S2'] if name == 'full' else _G['S']
+        if p == 'A':
+            S = _G['S2'] if name == 'full' else _G['S']
+        else:
+            S = _G['LB2'] if name == 'full' else _G['LB']
         for s in S[lo:hi]:
             for table in placements(s, f):
-                _run_csv(acc, table, cfgs, 'A')
-        acc.sample({'part': 'A', 'table': placements(S[lo], f)[5], 'configurations': len(cfgs)}, 1)
+                _run_csv(acc, table, cfgs, p)
+        acc.sample({'part': p, 'table': placements(S[lo], f)[5], 'configurations': len(cfgs)}, 1)
     elif p == 'B':
         _, variant, i, which = item
         A = _G['A']
